@@ -57,6 +57,12 @@ def check_model(case):
             return f
         if l.type_ != r.type:
             return Fail('type-differs', f'node {k}')
+    # history: derived builders / slices / serialisations of inner nodes are used; the cells stay what they were
+    dag.disturb(lib)
+    for k, (r, l) in enumerate(zip(cells, lib)):
+        f = cmp_node(r, l, f'{route} node {k} after derived objects were used')
+        if f:
+            return Fail(f.signature + '/after-history', f.detail)
     # copy() keeps type and hashes
     ok, cp = call(lib[-1].copy)
     if not ok:
